@@ -255,6 +255,9 @@ class AQTSampler(cirq.Sampler):
         seq_list: list[tuple[str, float, list[int]] | tuple[str, float, float, list[int]]] = []
         circuit = cirq.resolve_parameters(circuit, param_resolver)
         for op in circuit.all_operations():
+            if not all(isinstance(q, cirq.LineQubit) for q in op.qubits):
+                # e.g. a qudit on a LineQid: its gate would go out as the qubit gate of the same name
+                raise ValueError(f'Operations must act on cirq.LineQubit qubits, got: {op!r}')
             line_qubit = cast(tuple[cirq.LineQubit], op.qubits)
             op = cast(cirq.GateOperation, op)
             qubit_idx = [obj.x for obj in line_qubit]
